@@ -40,6 +40,9 @@ EXTRA = [
     dict(pre=[], effs=[4, 5], effcond=4, n_bounds="both", goal=[0], sym=["c1", "c2"]),  # assignment conflict only when the condition fires
     dict(pre=[], effs=[12, 10], goal=[0, 2], sym=[]),                                # two goals: is_goal must look at all of them
     dict(pre=[], effs=[10], goal=[2, 0, 12], sym=[]),
+    # the invariant reads p through a NESTED fluent (not p(w(o1))): which ground p it denotes depends on the state
+    dict(pre=[], effs=[10], inv=[5], goal=[0], w_init="any", sym=[]),
+    dict(pre=[], effs=[7, 12], inv=[5], goal=[0], w_init="any", sym=[]),             # ... and an action that moves w
 ]
 
 
